@@ -46,7 +46,9 @@ META = {
         "seg: one case per (CMap, byte string); strings = all over the boundary alphabet up to seg_len; judged on the "
         "CIDs of the maximal prefix made of defined codes (whole string when every byte belongs to a defined code); "
         "non-trivial = at least one CID expected. codec: one case per (CMap, code point); non-trivial = in scope "
-        "(codec form is a single defined code). tou / w / ttf / coll: one case per generated document, every glyph's "
+        "(codec form is a single defined code). tou / w / ttf / coll / one (several composite fonts in one document: "
+        "-H and -V font of one collection in every load order, two Type0 fonts sharing one descendant with and "
+        "without ToUnicode; each such case runs in its own fresh process): one case per generated document, every glyph's "
         "text, advance and pen displacement compared; non-trivial = some expected text is not a placeholder or some "
         "advance differs from the default. states = enumeration-tree nodes (string-tree nodes per CMap, subsets / "
         "sequences of pool entries, code points), transitions = edges, traces = executions compared with the model."
